@@ -168,6 +168,8 @@ def implRows : List Row := [
   ("object.Nil", false, "object.<pkg-init>", true, [], true),
   ("object.True", false, "<readers>", false, [], false),
   ("object.True", false, "object.<pkg-init>", true, [], true),
+  ("object.basicTypes", false, "object.<pkg-init>", true, [], true),
+  ("object.basicTypes", false, "<readers>", false, [], false),
   ("object.byteCache", false, "object.<pkg-init>", true, [], true),
   ("object.byteCache", false, "<readers>", false, [], false),
   ("object.byteCache", false, "object.init", true, [], true),
@@ -592,7 +594,7 @@ def registryRows : List RegRow := [
 def machineSourceRows : List (String × String) := [
   ("vm.New", "call:vm.createVM"),
   ("vm.NewEmpty", "call:vm.createVM"),
-  ("vm.Run", "call:vm.New"),
+  ("vm.Run", "call:vm.createVM"),
   ("vm.VirtualMachine.Clone", "new"),
   ("vm.VirtualMachine.cloneCallAsync", "call:vm.VirtualMachine.Clone"),
   ("vm.VirtualMachine.cloneCallSync", "call:vm.VirtualMachine.Clone"),
@@ -620,7 +622,7 @@ def machineFresh (tbl : List (String × String)) : Nat → String → Bool
 def reviewedVars : List (String × String) := [
   ("builtins.codecs", "state"), ("builtins.mutex", "lock"), ("errz.typeErrorsAreFatal", "state"),
   ("importer.defaultExtensions", "state"), ("object.False", "state"), ("object.Nil", "state"),
-  ("object.True", "state"), ("object.byteCache", "state"), ("object.contextInterface", "state"),
+  ("object.True", "state"), ("object.basicTypes", "state"), ("object.byteCache", "state"), ("object.contextInterface", "state"),
   ("object.errorInterface", "state"), ("object.goTypeMutex", "lock"),
   ("object.goTypeRegistry", "state"), ("object.intCache", "state"), ("object.kindConverters", "state"),
   ("object.typeConverters", "state"), ("op.infos", "state"), ("os.globalScriptargs", "state")]
